@@ -176,8 +176,22 @@ def _catalogue():
         "partition-empty": lambda: InMemoryPartition({}),
         "partition-nested": lambda: InMemoryPartition({"outer": 1, "inner": InMemoryPartition({"k": [1, 2, 3]})}),
         "partition-ondisk": _ondisk,
+        # values that compare equal (==) but are different values / types: a store that identifies values by equality
+        # instead of by their bytes hands back the wrong one
+        "partition-equal-scalars": lambda: InMemoryPartition(_equal_scalars()),
+        "dict-equal-scalars": lambda: _equal_scalars(),
+        "list-equal-scalars": lambda: [v for _, v in sorted(_equal_scalars().items())],
     }
     return c
+
+
+def _equal_scalars():
+    import pandas as pd
+    tz = dt.timezone(dt.timedelta(hours=5, minutes=30))
+    return {"i1": 1, "f1": 1.0, "t": True, "i0": 0, "f0": 0.0, "nf0": -0.0, "fl": False,
+            "dn": dt.datetime(2020, 1, 2, 3, 4, 5), "ts": pd.Timestamp("2020-01-02 03:04:05"),
+            "u1": dt.datetime(2020, 1, 2, 3, 4, 5, tzinfo=dt.timezone.utc),
+            "u2": dt.datetime(2020, 1, 2, 8, 34, 5, tzinfo=tz), "s1": "a", "s2": "a", "big": 2 ** 53, "bigf": float(2 ** 53)}
 
 
 def _ondisk():
